@@ -130,6 +130,8 @@ def obs_term(call, res):
         return "(O_defects %s %s)" % (coq_bool(call[1]), sl(v))
     if nm == "vnormals":
         return "(O_vnormals %s %s)" % (WTAG[call[1]], vl(v))
+    if nm == "vnormals_c":
+        return "(O_vnormals_c %s %s %s)" % (WTAG[call[1]], vl(call[2]), vl(v))
     if nm == "cell_volume":
         return "(O_cell_volume %s)" % sl(v)
     if nm == "cell_bary":
@@ -194,8 +196,8 @@ def dropped_observations(case, out):
     for k, (c, r) in enumerate(zip(case["script"], out.get("out", []))):
         if c[0] in ("move", "angles"):
             skipped += 1          # moves are not observations; corner angles travel in c_ang
-        elif stale[k]:
-            skipped += 1
+        elif stale[k] or (c[0] == "vnormals" and c[1] not in ("uniform", "area", "angle")):
+            skipped += 1          # stale-cache reads; calls that must be (and are checked to be) rejected
         elif obs_term(c, r) is None:
             dropped += 1          # an error result or a non-finite number: only the oracle sees it
         else:
@@ -382,12 +384,14 @@ def expected(T, edges, call):
         for (p, a, n, _), th in zip(T.corner_list(), T.angles()):
             tot[a] += th
         return [(0.0 if call[1] else math.pi - tot[v]) if v in bv else 2 * math.pi - tot[v] for v in range(nv)]
-    if nm == "vnormals":
+    if nm == "vnormals" and call[1] not in ("uniform", "area", "angle"):
+        return ("raises",)      # vertex_normals does not lower-case `interpolation`: only the three documented strings
+    if nm in ("vnormals", "vnormals_c"):
         acc = [[0.0, 0.0, 0.0] for _ in range(nv)]
         ang = T.angles()
         k = 0
         for fi, f in enumerate(T.F):
-            nf = T.face_normal(f)
+            nf = T.face_normal(f) if nm == "vnormals" else [float(x) for x in call[2][fi]]
             if nf is None:
                 return None
             for i, v in enumerate(f):
@@ -631,7 +635,7 @@ def oracle_renumbering(base, bout, var, vout):
             return close(y, x)
         ok = True
         skew = False
-        if nm in ("degree", "defects", "vnormals", "f2v", "c2v"):   # vertex-indexed
+        if nm in ("degree", "defects", "vnormals", "vnormals_c", "f2v", "c2v"):   # vertex-indexed
             badv = [u for u in range(len(sigma)) if not same(b[u], v[sigma[u]])]
             ok = not badv
             # the recorded skew-quad finding only explains vertices that lie on a skew face
@@ -665,6 +669,8 @@ def floats_of(Vx):
 def map_values_renumber(call, ren, base_faces):
     """permute the input attribute of an interpolation call along a renumbering"""
     nm = call[0]
+    if nm == "vnormals_c":
+        return [nm, call[1], [call[2][ren["order"][k]] for k in range(len(call[2]))]] + list(call[3:])
     if nm not in ("v2f", "f2v", "sv2c", "sf2c", "c2v", "c2f"):
         return call
     vals = call[2]
@@ -701,7 +707,7 @@ def gen_family(rng, fam_id, tier):
         C = None
     nF = len(F) if F else 0
     nCorn = sum(len(f) for f in F) if F else 0
-    script = G.gen_script(rng, kind, len(V), nF, nCorn, len(C) if C else 0, rng.randint(5, 9))
+    script = G.gen_script(rng, kind, len(V), nF, nCorn, len(C) if C else 0, rng.randint(5, 9), geom=(V, F) if F else None)
     Vx = [[Fr(x) for x in p] for p in V]
     base = {"V": floats_of(Vx), "F": F, "C": C, "script": script, "meta": {"kind": kind, "family": fam_id, "variant": "base"}}
     fam = [base]
@@ -769,35 +775,42 @@ def stale_reads(script):
         if nm == "move":
             st = {k: False for k in st}
         elif nm == "face_area":
-            if call[-2]:
+            if call[-2] is True:
                 st["area"] = True
         elif nm == "face_normals":
-            if call[-2]:
+            if call[-2] is True:
                 st["normals"] = True
         elif nm == "angles":
-            if call[-2]:
+            if call[-2] is True:
                 st["angles"] = True
         elif nm == "cell_volume":
-            if call[-2]:
+            if call[-2] is True:
                 st["volume"] = True
         elif nm == "cot":
             a = read("angles", reads)
-            if call[-2]:
+            if call[-2] is True:
                 st["cotan"] = True if a is None else a
         elif nm == "cw":
             c = read("cotan", reads)
             if c is None:
                 a = read("angles", reads)      # cotangent(mesh, persistent=persistent) consults the angles cache
-                if call[-2]:
+                if call[-2]:                     # ... and stores "cotan" under its default name whatever cw's own name
                     st["cotan"] = True if a is None else a
         elif nm == "defects":
             a = read("angles", reads)
             if a is None and call[-2]:
                 st["angles"] = True
         elif nm == "vnormals":
-            n_ = read("normals", reads)
-            if n_ is None and call[-2]:
-                st["normals"] = True
+            if call[1] in ("uniform", "area", "angle"):
+                n_ = read("normals", reads)
+                if n_ is None and call[-2]:
+                    st["normals"] = True
+                if call[1] == "area":
+                    read("area", reads)
+                elif call[1] == "angle":
+                    read("angles", reads)
+        elif nm == "vnormals_c":
+            # the caller's own face normals: the "normals" cache must NOT be consulted
             if call[1] == "area":
                 read("area", reads)
             elif call[1] == "angle":
@@ -981,7 +994,9 @@ def run(ctx):
             if call[0] in ("v2f", "f2v", "sv2c", "sf2c", "c2v", "c2f") and call[5]:
                 ctx.count("interpolation into a preloaded output")
             elif len(call) >= 3 and isinstance(call[-1], bool):
-                ctx.count("persistent=%s dense=%s" % (call[-2], call[-1]))
+                ctx.count("persistent=%s dense=%s" % ("custom-name" if isinstance(call[-2], str) else call[-2], call[-1]))
+            if call[0] in ("f2v", "c2v", "c2f") and len(call) > 6 and call[6]:
+                ctx.count("weight given in another spelling")
         ctx.case_seen([c["V"], c.get("F"), c.get("C"), c["script"]],
                       nontrivial=nel >= 2 and any(x[0] not in ("move", "degree", "euler") for x in c["script"]),
                       sample={"V": c["V"][:6], "F": (c.get("F") or c.get("C"))[:6], "script": [x[:2] for x in c["script"]], "variant": m["variant"]})
